@@ -3,7 +3,7 @@ from wiregen import *
 import math
 
 ID = "C07"
-THEOREM_MODULES = ["SimVerif.Props.C07", "SimVerif.Props.C07b", "SimVerif.Tie.Kalman", "SimVerif.Tie.KalmanMat"]
+THEOREM_MODULES = ["SimVerif.Props.C07", "SimVerif.Props.C07b", "SimVerif.Tie.Kalman", "SimVerif.Tie.KalmanMat", "SimVerif.Props.C07s"]
 THEOREM_MODULE = "SimVerif.Props.C07"
 NONTRIVIAL_FLAGS = {"multi-step", "long", "stationary", "rotated", "beyond-gate", "between-2dof-and-5dof-gates", "multi-point", "inverted"}
 RULE = ("`kf box|point|vec traj`: measurement sequences of 1..300 steps (moving, accelerating, jittering, shrinking/growing, rotated boxes, stationary objects; coordinates 1..1e4; position/velocity weights over the documented range); "
